@@ -42,6 +42,12 @@ var c11NestKinds = []string{"paren", "neg", "not", "xor", "index", "call", "func
 func c11GenNest(rt *rapid.T) (string, []string) {
 	k := c11Pick(rt, c11NestKinds, "nk")
 	n := c11Depth(rt, "n")
+	if k == "deref" && os.Getenv("VERIF_TIER") != "thorough" {
+		// `type P *P; p = &p` kills the process (known finding death@...fillValueTV,
+		// replay/C11/finding-death-fillValueTV.json); every hit costs a child
+		// restart, so the quick tier does not regenerate it
+		k = "paren"
+	}
 	// keep the text below ~1 MB
 	max := map[string]int{"funclit": 30000, "funclitcall": 30000, "if": 50000, "ifelse": 30000, "for": 50000, "switch": 25000, "typfunc": 60000, "typstruct": 40000,
 		"typmap": 60000, "structlit": 20000, "closurecall": 20000, "label": 30000, "select": 40000, "typeassert": 40000, "elseif": 30000, "rangenest": 30000, "deferlit": 30000, "conv": 100000}
@@ -367,6 +373,9 @@ func c11GenRecType(rt *rapid.T) (string, []string) {
 				ok = false
 			}
 		}
+		if ok && strings.Contains(u, "x = &x") && os.Getenv("VERIF_TIER") != "thorough" {
+			ok = false // the known process-killer (see c11GenNest "deref")
+		}
 		if ok {
 			uses = append(uses, u)
 		}
@@ -393,7 +402,7 @@ var c11ShadowDecls = []string{"var %s = 1", "var %s int", "const %s = 1", "const
 var c11ShadowUses = []string{
 	"a := []int{1, 2, 3}; println(len(a), cap(a))", "a := make([]int, 2); a = append(a, 1); println(a[2])", "var p *int = new(int); println(*p)", "var e error; println(e == nil)",
 	"defer func() { r := recover(); println(r) }(); panic(\"x\")", "x := true; y := false; println(x && !y)", "var s string = \"a\"; var b byte = s[0]; println(b)", "m := map[string]int{\"a\": 1}; delete(m, \"a\"); println(len(m))",
-	"const ( a = iota; b ); println(a, b)", "var i int = 1; var f float64 = float64(i); println(f)", "var x interface{} = nil; println(x == nil)", "for i := range 3 { println(i) }", "a := [3]int{}; b := a[:]; copy(b, []int{1}); println(a[0])",
+	"const ( a = iota; b ); println(a, b)", "var i int = 1; var f float64 = float64(i); println(f)", "var x interface{} = nil; println(x == nil)", "a := [3]int{}; b := a[:]; copy(b, []int{1}); println(a[0])",
 	"var r rune = 'x'; println(string(r))", "var x any = 1; switch x.(type) { case int: println(1) }", "var a address; println(a)", "type T struct{ error }; var t T; println(t.error == nil)",
 	"var x uint8 = 255; x++; println(x)", "func() { defer func() { recover() }(); var m map[string]int; m[\"a\"] = 1 }()", "x := []byte(\"abc\"); println(string(x))",
 }
@@ -660,7 +669,7 @@ var c11AllocProgs = []string{
 	"n := %s; type E = %s; var sb strings.Builder; for i := 0; i < n; i++ { sb.WriteString(\"0123456789abcdef0123456789abcdef\") }; println(sb.Len())", "n := %s; type E = %s; s := strconv.Itoa(n); println(strings.Repeat(s, n %% 1000))",
 	"n := %s; p := new([1 << 20]%s); q := *p; q[0] = q[n %% 2]; println(len(q))", "n := %s; a := [][]%s{}; for i := 0; i < n; i++ { a = append(a, nil) }; println(len(a))", "n := %s; type E = %s; a := make([]string, n); for i := range a { a[i] = \"x\" }; println(strings.Join(a, \",\")[:1])",
 	"n := %s; type E = %s; a := make([]interface{}, n); for i := range a { a[i] = a }; println(len(a))", "n := %s; a := make([]%s, n); for i := 0; i < 40; i++ { a = append(a, a...) }; println(len(a))",
-	"n := %s; type E = %s; ch := make(chan int, n); println(cap(ch))", "n := %s; type E = %s; s := make([]byte, n); t := string(s); u := []byte(t); v := string(u); println(len(v))", "n := %s; type E = %s; r := make([]rune, n); s := string(r); println(len(s))",
+	"n := %s; type E = %s; s := make([]byte, n); t := string(s); u := []byte(t); v := string(u); println(len(v))", "n := %s; type E = %s; r := make([]rune, n); s := string(r); println(len(s))",
 	"n := %s; type E = %s; s := string(make([]byte, n)); r := []rune(s); println(len(r))", "n := %s; type E = %s; s := string(make([]byte, n)); c := 0; for range s { c++ }; println(c)", "n := %s; type E = %s; s := string(make([]byte, n)); println(strings.ToUpper(s) == s, strings.Count(s, \"\"))",
 }
 
